@@ -114,6 +114,24 @@ CHECKS["C10"] = dict(
          "Prefix enumeration is complete per sampled input, token damage is capped per input in the quick tier; inputs are sampled. Time "
          "proportionality is judged as 'within the step / 10 s watchdog budget for inputs < 2 KiB'.")
 
+CHECKS["C16"] = dict(
+    level="exploration", design="DESIGN.md §3 C16",
+    technique=TECH + ": seeded directory trees, mapping sets and request spellings against the real file layer over a scratch disk, with the resolved file deleted / truncated / turned into a directory between resolution and read; executable reference resolver as oracle, decoy files outside every root as containment probes",
+    text="Per run a seeded directory tree is written to a scratch disk: 1-4 physical roots with files in sub folders whose names coincide with "
+         "virtual prefix segments (so that shallower roots shadow deeper prefixes), include chains between them, and decoy files outside every "
+         "root (parent, siblings, a sibling whose name extends a root's name). 1-5 mappings with nested, overlapping and duplicated prefixes "
+         "and nested physical roots are installed. 6-20 requests are sent through impl_default::get_info + read_file, loadFile, preprocessFile, "
+         "execVM and #include, spelled plainly, with backslashes, mixed and doubled separators, blanks, inner dir-ups, as traversal attempts "
+         "towards the decoys, as absolute physical paths inside and outside the roots, as directories, as shadowed and as missing files. "
+         "Every file holds a unique token naming its physical path. Judged against a reference resolver that implements the statement "
+         "(deepest mapped prefix replaced by its directory, first root containing the file, nothing else): resolved file, content "
+         "served, code run by execVM, files expanded by #include (depth-first order); never a decoy token, never a path outside the roots; "
+         "not found where the statement says so; no crash or escaping exception also when the resolved file is deleted, truncated to 0-3 "
+         "bytes or replaced by a directory before it is read (the disk is restored afterwards).",
+    note="Relative includes whose virtual and physical reading lead to different files (the mappings reshape the tree) are judged for "
+         "containment only: the statement does not say which directory of the including file is meant. Absolute physical requests "
+         "inside a root are judged for containment only.")
+
 CHECKS["C17"] = dict(
     level="fault_enumeration", design="DESIGN.md §3 C17",
     technique=TECH + ": archive images written by an independent packer are truncated at every length and corrupted at every header byte / length field before the real reader opens them through three paths; packed-bytes oracle, crash/hang/allocation/file-change monitors",
